@@ -594,17 +594,63 @@ def check(ctx):
             continue
 
         def avoiding(start):
-            seen_ = {start}
-            work_ = [start]
+            """blocks reachable from `start` without passing a configuration write.  A Result that a spliced-in helper assigned as `Err(..)`
+            (or `Ok(..)`) and that the caller then takes apart with `?` is followed along the matching edge only: the state carried with each
+            block is which locals are known to hold which variant"""
+            def step_state(b_, st0):
+                st1 = dict(st0)
+                for s_ in f.blocks[b_]["stmts"]:
+                    lhs_ = s_.get("lhs")
+                    if lhs_ is None:
+                        continue
+                    if lhs_.get("p"):
+                        st1.pop(lhs_["l"], None)
+                        continue
+                    rv_ = s_.get("rv") or {}
+                    if rv_.get("k") == "aggr" and rv_.get("variant") in ("Ok", "Err", "Continue", "Break") and rv_.get("agg") != "closure":
+                        st1[lhs_["l"]] = rv_["variant"]
+                    elif rv_.get("k") == "use":
+                        q_ = op_place(rv_["op"])
+                        if q_ is not None and not q_.get("p") and q_["l"] in st1:
+                            st1[lhs_["l"]] = st1[q_["l"]]
+                        else:
+                            st1.pop(lhs_["l"], None)
+                    elif rv_.get("k") == "discr" and not rv_["place"].get("p") and rv_["place"]["l"] in st1:
+                        st1[lhs_["l"]] = "discr:" + st1[rv_["place"]["l"]]
+                    else:
+                        st1.pop(lhs_["l"], None)
+                t0 = f.blocks[b_]["term"]
+                if t0["k"] == "call" and not t0["dest"].get("p"):
+                    c0 = f.call_at(b_)
+                    a0 = op_place(t0["args"][0]) if t0["args"] else None
+                    if c0 is not None and c0.name == "branch" and a0 is not None and not a0.get("p") and st1.get(a0["l"]) in ("Ok", "Err"):
+                        st1[t0["dest"]["l"]] = "Continue" if st1[a0["l"]] == "Ok" else "Break"
+                    else:
+                        st1.pop(t0["dest"]["l"], None)
+                return st1
+            seen_ = {(start, ())}
+            work_ = [(start, {})]
+            out_ = {start}
             while work_:
-                b_ = work_.pop()
+                b_, st0 = work_.pop()
                 if b_ in wr:
                     continue
-                for (_, t_) in f.succ_edges(b_):
-                    if t_ not in seen_:
-                        seen_.add(t_)
-                        work_.append(t_)
-            return seen_
+                st1 = step_state(b_, st0)
+                t0 = f.blocks[b_]["term"]
+                for (lab_, t_) in f.succ_edges(b_):
+                    if t0["k"] == "switch":
+                        d_ = op_place(t0["discr"])
+                        known = st1.get(d_["l"]) if d_ is not None and not d_.get("p") else None
+                        if isinstance(known, str) and known.startswith("discr:"):
+                            outcome_ = f.cond_struct(b_, lab_)[1]
+                            if known[6:] not in str(outcome_).split("|"):
+                                continue            # this edge contradicts the variant assigned on the way here
+                    key_ = (t_, tuple(sorted(st1.items())))
+                    if key_ not in seen_ and len(seen_) < 20000:
+                        seen_.add(key_)
+                        out_.add(t_)
+                        work_.append((t_, st1))
+            return out_
         if not any(b in avoiding(0) for b in oks_):
             r5.ok("run_init: every Ok return is preceded by the configuration write")
             continue
